@@ -5,7 +5,6 @@ import (
 	"go/token"
 	"go/types"
 	"os"
-	"sort"
 	"strings"
 
 	"golang.org/x/tools/go/ssa"
@@ -159,6 +158,15 @@ func init() {
 			{ID: "C13-B5-lookup-unlocked", File: srv, Expect: "B5",
 				Old: "func (s *server) getMessageIDFunc(msgID string) (messageIDFuncs, bool) {\n\ts.msgIDFuncsMutex.Lock()\n\tdefer s.msgIDFuncsMutex.Unlock()\n",
 				New: "func (s *server) getMessageIDFunc(msgID string) (messageIDFuncs, bool) {\n"},
+			{ID: "C13-B5-register-allow-unlocked", File: impl, Expect: "B5",
+				Old: "\tc.allowedMsgIDsMutex.Lock()\n\tdefer c.allowedMsgIDsMutex.Unlock()\n\n\tc.allowedMsgIDs[msgID] = struct{}{}",
+				New: "\tc.allowedMsgIDs[msgID] = struct{}{}"},
+			{ID: "C13-B5-dedup-unlocked", File: srv, Expect: "B5",
+				Old: "func (s *server) dedupHash(pID peer.ID, msgID string, hash []byte) error {\n\ts.mu.Lock()\n\tdefer s.mu.Unlock()\n",
+				New: "func (s *server) dedupHash(pID peer.ID, msgID string, hash []byte) error {\n"},
+			{ID: "C13-B5-dedup-early-unlock", File: srv, Expect: "B5",
+				Old: "\tprevHash, ok := s.dedup[key]\n",
+				New: "\ts.mu.Unlock()\n\tprevHash, ok := s.dedup[key]\n\ts.mu.Lock()\n"},
 			{ID: "C13-B5-allowed-unlocked", File: impl, Expect: "B5",
 				Old: "\tc.allowedMsgIDsMutex.Lock()\n\tdefer c.allowedMsgIDsMutex.Unlock()\n\n\t_, allowed",
 				New: "\t_, allowed"},
@@ -464,10 +472,11 @@ func (p *c13P) originClass(s *an.Sym) int {
 // ---------------------------------------------------------------------------------------------
 
 func c13(c *rt.Ctx) {
+	c13N = c13ResolveNames(c.SSAPkg(c13Pkg))
 	if os.Getenv("C13_TRACE") != "" {
 		for _, n := range strings.Split(os.Getenv("C13_TRACE"), ",") {
 			if f := c.FnOpt(n); f != nil {
-				c13Trace(f, 3)
+				c13Trace(f, 8)
 			}
 		}
 		os.Unsetenv("C13_TRACE")
@@ -476,7 +485,7 @@ func c13(c *rt.Ctx) {
 	c.Rule("B2", 4, func() { c13B2(c) })
 	c.Rule("B3", 10, func() { c13B3(c) })
 	c.Rule("B4", 7, func() { c13B4(c) })
-	c.Rule("B5", 9, func() { c13B5(c) })
+	c.Rule("B5", 7, func() { c13B5(c) })
 	c.Rule("B6", 3, func() { c13B6(c) })
 }
 
@@ -510,10 +519,14 @@ func c13Roots(c *rt.Ctx, agg *h1617Agg, root *ssa.Function, sites []ssa.CallInst
 			}
 		}
 	}
-	run(root)
+	if root != nil {
+		run(root)
+	}
 	for _, s := range sites {
 		if !visited[s] {
-			run(c13Outer(s.Parent()))
+			for _, r := range c13EntryRoots(c13PkgOf(s.Parent()), s.Parent()) {
+				run(r)
+			}
 		}
 	}
 	for _, s := range sites {
@@ -527,14 +540,13 @@ func c13Roots(c *rt.Ctx, agg *h1617Agg, root *ssa.Function, sites []ssa.CallInst
 // (id, message) whose error is known to be nil; the payload is UnmarshalNew of that message (error nil); the
 // registry of callbacks is consulted under that id only.
 func c13B1(c *rt.Ctx) {
-	hm := c.Fn(c13Srv + ".handleMessage")
 	sites := c13DynSites(c, c13TCallback)
 	if len(sites) == 0 {
 		c.Bail("no call of a Callback value in dkg/bcast")
 	}
 	agg := newAgg(c)
 	seen := 0
-	c13Roots(c, agg, hm, sites, "verifyFunc→callback", func(root *ssa.Function) *c13T {
+	c13Roots(c, agg, nil, sites, "verifyFunc→callback", func(root *ssa.Function) *c13T {
 		name := c13ShortName(root)
 		t := c13Trace(root, 3)
 		if !t.usable() {
@@ -546,9 +558,7 @@ func c13B1(c *rt.Ctx) {
 				if e.Kind != "call" || c13Role(e) != c13TCallback {
 					continue
 				}
-				if root == hm {
-					seen++
-				}
+				seen++
 				pos := e.In.Pos()
 				if len(e.Args) != 4 {
 					agg.unsure(name+" callback", pos, "unexpected callback arity")
@@ -578,7 +588,7 @@ func c13B1(c *rt.Ctx) {
 				agg.check(name+" callback id = verified id", pos, p.same(e.Args[2], ga[0]),
 					"the message id handed to the callback is not the id that was verified")
 				k := name + " callback lookup id = verified id"
-				if lks := p.lookupsOf(c13Srv+".msgIDFuncs", i); len(lks) == 0 {
+				if lks := p.lookupsOf(c13N.registry, i); len(lks) == 0 {
 					agg.unsure(k, pos, "cannot trace the callback to a lookup of server.msgIDFuncs")
 				} else {
 					good := true
@@ -611,7 +621,7 @@ func c13B1(c *rt.Ctx) {
 	})
 	agg.flush()
 	if seen == 0 {
-		c.Bail("no call through a Callback value on any path of handleMessage")
+		c.Bail("no call through a Callback value on any path of the functions that contain one")
 	}
 }
 
@@ -621,7 +631,7 @@ func (p *c13P) dedupRoot(m *an.Sym, d int) bool {
 	if m == nil || d > 4 {
 		return false
 	}
-	if m.FieldName() == c13Srv+".dedup" {
+	if m.FieldName() == c13N.dedup {
 		return true
 	}
 	x := m
@@ -754,17 +764,18 @@ func (p *c13P) dedupAccepted(i int, pid, id, hash *an.Sym) (bool, string) {
 // registered checkMessage accepted, after that hash was recorded in / matched against server.dedup for
 // (requesting peer, id); and the dedup table never replaces an entry by a different hash.
 func c13B2(c *rt.Ctx) {
-	hs := c.Fn(c13Srv + ".handleSigRequest")
 	sites := c13DynSites(c, c13TSign)
 	// everything but the client's own local signing (decided by B6): calls through client.signFunc and calls
 	// executed on the paths of client.Broadcast
 	clientSide := map[ssa.Instruction]bool{}
-	if bc := c.FnOpt(c13Cli + ".Broadcast"); bc != nil {
-		clientSide = c13Trace(bc, 2).res.Visited
+	for _, bc := range c13SendRoots(c) {
+		for in := range c13Trace(bc, 2).res.Visited {
+			clientSide[in] = true
+		}
 	}
 	var srvSites []ssa.CallInstruction
 	for _, s := range sites {
-		if k, _, ok := an.FieldOf(s.Common().Value); (!ok || k != c13Cli+".signFunc") && !clientSide[s] {
+		if k, _, ok := an.FieldOf(s.Common().Value); (!ok || k != c13N.cliSign) && !clientSide[s] {
 			srvSites = append(srvSites, s)
 		}
 	}
@@ -777,7 +788,7 @@ func c13B2(c *rt.Ctx) {
 	}
 	agg := newAgg(c)
 	seen := 0
-	c13Roots(c, agg, hs, srvSites, "dedupHash→signFunc", func(root *ssa.Function) *c13T {
+	c13Roots(c, agg, nil, srvSites, "dedupHash→signFunc", func(root *ssa.Function) *c13T {
 		name := c13ShortName(root)
 		t := c13Trace(root, 3)
 		if !t.usable() {
@@ -799,9 +810,7 @@ func c13B2(c *rt.Ctx) {
 				if e.Kind != "call" || !isSrvSite[e.In] {
 					continue
 				}
-				if root == hs {
-					seen++
-				}
+				seen++
 				pos := e.In.Pos()
 				sa := e.Args
 				if len(sa) != 2 {
@@ -844,7 +853,7 @@ func c13B2(c *rt.Ctx) {
 					if ck.Kind != "call" || c13Role(ck) != c13TCheck {
 						continue
 					}
-					lks := p.lookupsOf(c13Srv+".msgIDFuncs", j)
+					lks := p.lookupsOf(c13N.registry, j)
 					idOK := len(lks) > 0
 					for _, l := range lks {
 						if !p.same(p.Evs[l].Args[1], sa[0]) {
@@ -876,7 +885,7 @@ func c13B2(c *rt.Ctx) {
 	agg.flush()
 	c13Dedup(c, false)
 	if seen == 0 {
-		c.Bail("no call through server.signFunc on any path of handleSigRequest")
+		c.Bail("no call through server.signFunc on any path of the functions that contain one")
 	}
 }
 
@@ -889,7 +898,7 @@ func c13Dedup(c *rt.Ctx, lock bool) {
 	funcs := an.PkgFuncs(c.SSAPkg(c13Pkg))
 	var holders []*ssa.Function
 	for _, fn := range funcs {
-		if fn.Parent() == nil && len(mapUpdates(fn, isFieldMap(c13Srv+".dedup"))) > 0 {
+		if fn.Parent() == nil && len(mapUpdates(fn, isFieldMap(c13N.dedup))) > 0 {
 			holders = append(holders, fn)
 		}
 	}
@@ -1001,7 +1010,7 @@ func c13DedupRoot(c *rt.Ctx, agg *h1617Agg, g *ssa.Function, k string, lock, own
 					}
 					for q := j + 1; q < w; q++ {
 						u := p.Evs[q]
-						if u.Kind == "call" && (c13StaticName(u) == "sync.Mutex.Unlock" || c13StaticName(u) == "sync.RWMutex.Unlock") && len(u.Args) == 1 && u.Args[0].FieldName() == c13Srv+".mu" {
+						if u.Kind == "call" && (c13StaticName(u) == "sync.Mutex.Unlock" || c13StaticName(u) == "sync.RWMutex.Unlock") && len(u.Args) == 1 && c13SameOwner(u.Args[0].FieldName(), c13N.dedup) {
 							verdict, why = "bad", "the mutex is released between the lookup of the stored hash and the store: two requests with different hashes can both pass"
 							pos = u.In.Pos()
 						}
@@ -1145,7 +1154,7 @@ func (p *c13P) allowListed(id ssa.Value, before int, what string) (bool, string)
 		if j >= before {
 			break
 		}
-		if e.Kind != "lookup" || len(e.Args) != 2 || e.Args[0].FieldName() != c13Comp+".allowedMsgIDs" {
+		if e.Kind != "lookup" || len(e.Args) != 2 || e.Args[0].FieldName() != c13N.allow {
 			continue
 		}
 		if !c13IsParam(e.Args[1], id) {
@@ -1205,8 +1214,9 @@ func (p *c13P) originThroughCalls(v ssa.Value, at int) ssa.Value {
 
 // B3: verifier closure, signer closure, wiring in New.
 func c13B3(c *rt.Ctx) {
-	mk := c.Fn(c13Comp + ".newPeerK1Verifier")
-	vf := c13Returned(c, mk)
+	anch := c13Anchors(c)
+	vf := anch.vfn
+	mk := c13MakerFn(vf) // nil if the verifier is not a closure
 	if len(vf.Params) != 3 {
 		c.Bail("verifier: unexpected signature")
 	}
@@ -1223,7 +1233,7 @@ func c13B3(c *rt.Ctx) {
 		c.Bail("verifier: path enumeration failed")
 	}
 	agg := newAgg(c)
-	isPeers := func(s *an.Sym) bool { return c13FieldSym(s, c13Comp+".peers") }
+	isPeers := func(s *an.Sym) bool { return c13FieldSym(s, c13N.compPeers) }
 	isSigs := func(s *an.Sym) bool { return c13IsParam(s, sigsP) }
 	nAccept, nIter, nVerify := 0, 0, 0
 	for _, p := range t.paths {
@@ -1421,14 +1431,15 @@ func c13B3(c *rt.Ctx) {
 				agg.bad(kHash, vpos, "the hash verified is not the output of the captured hashFunc")
 			default:
 				h := p.Evs[hq]
-				org := p.originThroughCalls(h.In.(ssa.CallInstruction).Common().Value, hq)
+				org := c13SymStatic(p.fnvalAt(hq), 0)
 				src, _ := org.(*ssa.Parameter)
 				switch {
-				case src == nil || src.Parent() != mk:
-					if src != nil {
-						agg.unsure(kHash, vpos, "the hash function is handed through a helper; origin not traced")
-					} else {
-						agg.bad(kHash, vpos, "the hash function called is not the hashFunc handed to newPeerK1Verifier")
+				case src == nil || mk == nil || src.Parent() != mk:
+					switch org.(type) {
+					case *ssa.MakeClosure, *ssa.Function, *ssa.Call:
+						agg.bad(kHash, vpos, "the hash function called is not the hashFunc handed to the constructor of the verifier")
+					default:
+						agg.unsure(kHash, vpos, "the origin of the hash function called by the verifier is not traced to a parameter of its constructor")
 					}
 				case len(h.Args) != 2 || !c13IsParam(h.Args[0], idP):
 					agg.bad(kHash, vpos, "the hash is not computed over the message id being verified")
@@ -1454,7 +1465,7 @@ func c13B3(c *rt.Ctx) {
 	}
 
 	// signer
-	sfn := c13Returned(c, c.Fn(c13Comp+".newK1Signer"))
+	sfn := anch.sfn
 	{
 		sf := sfn
 		if len(sf.Params) != 2 {
@@ -1487,14 +1498,15 @@ func c13B3(c *rt.Ctx) {
 	}
 
 	// wiring
-	c13Wiring(c, vf, sfn)
+	c13Wiring(c, anch)
 }
 
 // c13Wiring decides, on the paths of New (constructors and helpers stepped into): the server and the client
 // objects built there hold one and the same (hash, sign, verify) triple; the hash closure is bound to New's
 // session hash; signer and verifier are bound to the component that New returns; the verifier is bound to
 // that very hash closure; the client iterates over the same peer list as the component (index convention).
-func c13Wiring(c *rt.Ctx, vf, sf *ssa.Function) {
+func c13Wiring(c *rt.Ctx, anch c13Anch) {
+	vf, sf, hfn := anch.vfn, anch.sfn, anch.hfn
 	const (
 		kSess = "New wiring: hash bound to session"
 		kComp = "New wiring: verifier and signer of one component"
@@ -1502,7 +1514,6 @@ func c13Wiring(c *rt.Ctx, vf, sf *ssa.Function) {
 		kCli  = "New wiring: client"
 	)
 	nw := c.Fn(c13Pkg + ".New")
-	hfn := c13Returned(c, c.Fn(c13Pkg+".newHashAny"))
 	var sessP, peersP ssa.Value
 	for _, prm := range nw.Params {
 		switch an.TypeName(prm.Type()) {
@@ -1548,11 +1559,22 @@ func c13Wiring(c *rt.Ctx, vf, sf *ssa.Function) {
 		// binding whose content the path does not determine
 		var boundTo2 func(cl *an.Sym, pred func(*an.Sym) bool, d int) (found, unknown bool)
 		boundTo2 = func(cl *an.Sym, pred func(*an.Sym) bool, d int) (found, unknown bool) {
+			var leaves []*an.Sym
 			for _, b := range cl.Args {
-				v := content(b)
-				if pred(b) || pred(v) {
+				// a struct value bound as receiver / captured as a parameter object binds each of its fields
+				var ls []*an.Sym
+				c13Leaves(content(b), 0, &ls)
+				leaves = append(leaves, b)
+				for _, l := range ls {
+					leaves = append(leaves, l, content(l))
+				}
+			}
+			for _, v := range leaves {
+				if pred(v) {
 					return true, false
 				}
+			}
+			for _, v := range leaves {
 				switch {
 				case v != nil && v.Kind == an.KClosure && d < 3:
 					f, u := boundTo2(v, pred, d+1)
@@ -1905,10 +1927,10 @@ var c13AppendLen = map[string]bool{
 // and nothing else; the fields absorbed include the session hash, the message id, the type URL and the value of
 // the any-message; every successful path absorbs the same fields; the result is the Sum of that hasher.
 func c13B4(c *rt.Ctx) {
-	mk := c.Fn(c13Pkg + ".newHashAny")
-	hf := c13Returned(c, mk)
-	if len(hf.Params) != 2 || len(mk.Params) != 1 {
-		c.Bail("newHashAny: unexpected signature")
+	hf := c13Anchors(c).hfn
+	mk := c13MakerFn(hf)
+	if len(hf.Params) != 2 {
+		c.Bail("hash function: unexpected signature")
 	}
 	const (
 		kDigest = "newHashAny result is the digest"
@@ -1936,8 +1958,8 @@ func c13B4(c *rt.Ctx) {
 	}
 	role := func(p *c13P, s *an.Sym) int {
 		switch {
-		case c13IsParam(s, mk.Params[0]):
-			return 0
+		case c13IsMakerParam(s, mk, "[]byte"):
+			return 0 // the byte string the hash closure is bound to (New wiring: the session hash)
 		case c13IsParam(s, hf.Params[0]):
 			return 1
 		case getter(p, s, "GetTypeUrl", "TypeUrl"):
@@ -1965,20 +1987,28 @@ func c13B4(c *rt.Ctx) {
 			openLoop = true
 		}
 		// the hasher
+		// the hasher: an incremental one (sha256.New, Write..., Sum) or a one-shot digest of a byte string that is
+		// built on the path (sha256.Sum256(concatenation))
 		var h *an.Sym
-		for _, e := range p.Evs {
+		oneShot := -1
+		for j, e := range p.Evs {
 			if e.Kind == "call" && c13StaticName(e) == "crypto/sha256.New" && h == nil {
 				h = e.Res
 			}
+			if e.Kind == "call" && c13StaticName(e) == "crypto/sha256.Sum256" && len(e.Args) == 1 && oneShot < 0 {
+				oneShot = j
+			}
 		}
-		if h == nil {
-			agg.unsure(kDigest, hf.Pos(), "no sha256.New on a successful path of the hash closure")
+		if h == nil && oneShot < 0 {
+			agg.unsure(kDigest, hf.Pos(), "no sha256.New / sha256.Sum256 on a successful path of the hash closure")
 			continue
 		}
 		nAccept++
-		onH := func(s *an.Sym) bool { return an.SymEq(s, h) }
+		onH := func(s *an.Sym) bool { return h != nil && an.SymEq(s, h) }
+		type item = c13Item
+		var items []item
 		// result
-		{
+		if h != nil {
 			q, _ := p.producer(p.Results[0])
 			good := q >= 0 && c13InvokeName(p.Evs[q]) == "Sum" && len(p.Evs[q].Args) >= 1 && onH(p.Evs[q].Args[0])
 			rp := hf.Pos()
@@ -1986,20 +2016,34 @@ func c13B4(c *rt.Ctx) {
 				rp = p.Evs[q].In.Pos()
 			}
 			agg.check(kDigest, rp, good, "the value returned on success is not h.Sum of the hasher that absorbed the fields")
+		} else {
+			e := p.Evs[oneShot]
+			r := p.Results[0]
+			good := an.SymEq(r, e.Res)
+			if !good && r != nil && r.Kind == an.KPure && r.Name == "slice" && len(r.Args) == 3 && r.Args[0] != nil && r.Args[0].Kind == an.KAddr {
+				v := p.cellValue(r.Args[0].Cell, "", len(p.Evs), 0)
+				good = v != nil && an.SymEq(v, e.Res) && r.Args[1] == nil && r.Args[2] == nil
+			}
+			agg.check(kDigest, e.In.Pos(), good, "the value returned on success is not the (whole) digest of the byte string that absorbed the fields")
+			if !wpos.IsValid() {
+				wpos = e.In.Pos()
+			}
+			if its, ok := p.concat(e.Args[0], oneShot, 0); ok {
+				items = its
+			} else if q, ri := p.producer(e.Args[0]); q >= 0 && ri == 0 && c13StaticName(p.Evs[q]) == "bytes.Buffer.Bytes" && len(p.Evs[q].Args) == 1 {
+				h = p.Evs[q].Args[0] // the content of a bytes.Buffer: what was written into the buffer
+			} else {
+				agg.unsure(kPrefix, e.In.Pos(), "the byte string that is hashed is not recognised as a concatenation of length prefixes and fields")
+				continue
+			}
 		}
 		// absorption sequence
-		type item struct {
-			isLen bool
-			field *an.Sym // the field written / whose length is written; nil: not recognised
-			at    int
-		}
-		var items []item
 		for j, e := range p.Evs {
-			if e.Kind != "call" {
+			if e.Kind != "call" || h == nil {
 				continue
 			}
 			switch {
-			case c13InvokeName(e) == "Write" && len(e.Args) == 2 && onH(e.Args[0]):
+			case (c13InvokeName(e) == "Write" || c13StaticName(e) == "bytes.Buffer.Write") && len(e.Args) == 2 && onH(e.Args[0]):
 				if !wpos.IsValid() {
 					wpos = e.In.Pos()
 				}
@@ -2018,7 +2062,9 @@ func c13B4(c *rt.Ctx) {
 					isBuf = true
 					lenField = p.lenOf(p.Evs[q].Args[2])
 				}
-				if isBuf {
+				if its, ok := p.concat(x, j, 0); ok && !isBuf && len(its) > 0 {
+					items = append(items, its...) // a concatenation written at once
+				} else if isBuf {
 					items = append(items, item{isLen: true, field: lenField, at: j})
 				} else {
 					items = append(items, item{field: x, at: j})
@@ -2106,96 +2152,30 @@ func c13B4(c *rt.Ctx) {
 	}
 }
 
-// B5: lock discipline.
+// B5: lock discipline, decided on paths (c13Locks in c13n_ext.go): every access of a table held in a struct field
+// of the package (server.dedup, server.msgIDFuncs, Component.allowedMsgIDs, wherever they live and whatever they are
+// called) happens, on every path of every entry function, under a mutex of the object that owns the table, and all
+// accesses of one table agree on that mutex (taken directly, in a helper such as locked(mu, fn), with defer or with
+// explicit unlocks); the dedup lookup and the store it guards are in one critical section (c13Dedup).
 func c13B5(c *rt.Ctx) {
-	table := an.LockTable{
-		c13Srv + ".dedup":          "mu",                 // dedupHash only
-		c13Srv + ".msgIDFuncs":     "msgIDFuncsMutex",    // getMessageIDFunc / registerMessageIDFuncs
-		c13Comp + ".allowedMsgIDs": "allowedMsgIDsMutex", // RegisterMessageIDFuncs / msgIDAllowed
-	}
-	lockRule(c, []string{c13Pkg}, table)
-	// A function that touches guarded state without taking the mutex itself is acceptable only as an
-	// internal helper whose every use is a static call (lockRule checks those call sites). It is a
-	// violation if such a function is reachable without a static call: used as a (bound-method)
-	// value, a function literal that escapes, or never called inside the package (entry point).
-	funcs := an.PkgFuncs(c.SSAPkg(c13Pkg))
-	ls := &an.Lockset{Table: table, Funcs: funcs}
-	ls.Run()
-	escapes := map[string]string{}
-	called := map[string]bool{}
-	for _, f := range funcs {
-		for _, in := range an.Instrs(f, false) {
-			if ci, ok := in.(ssa.CallInstruction); ok {
-				if _, isGo := in.(*ssa.Go); !isGo {
-					if callee := ci.Common().StaticCallee(); callee != nil {
-						called[an.FuncName(callee)] = true
-					}
-				}
-			}
-			for _, op := range an.Operands(in) {
-				var target *ssa.Function
-				direct := false
-				switch x := op.(type) {
-				case *ssa.Function:
-					target = x
-					if ci, ok := in.(ssa.CallInstruction); ok && ci.Common().Value == op {
-						_, isGo := in.(*ssa.Go)
-						direct = !isGo
-					}
-					if _, ok := in.(*ssa.MakeClosure); ok && x.Synthetic == "" {
-						continue // literal: judged at the MakeClosure value below
-					}
-				case *ssa.MakeClosure:
-					target, _ = x.Fn.(*ssa.Function)
-					if ci, ok := in.(ssa.CallInstruction); ok && ci.Common().Value == op {
-						_, isGo := in.(*ssa.Go)
-						direct = !isGo
-					}
-				}
-				if target == nil || direct {
-					continue
-				}
-				escapes[an.FuncName(target)] = "used as a value in " + an.FuncName(f)
-			}
-		}
-	}
-	var names []string
-	for n := range ls.Requires {
-		names = append(names, n)
-	}
-	sort.Strings(names)
-	byName := map[string]*ssa.Function{}
-	for _, f := range funcs {
-		byName[an.FuncName(f)] = f
-	}
-	for _, n := range names {
-		pos := token.NoPos
-		f := byName[n]
-		if f != nil {
-			pos = f.Pos()
-		}
-		why := escapes[n]
-		if why == "" && f != nil && f.Parent() == nil && !called[n] {
-			why = "never called statically inside the package (entry point)"
-		}
-		if why != "" {
-			c.Bad("lock-free access "+n, pos, "touches guarded state without taking the mutex ("+strings.Join(ls.Requires[n], ", ")+") and is "+why)
-		}
-	}
-	// dedup lookup and store in one critical section (every function that writes the table)
+	c13Locks(c)
 	c13Dedup(c, true)
 }
 
 // B6: the client sends what it verified.
 func c13B6(c *rt.Ctx) {
-	fn := c.Fn(c13Cli + ".Broadcast")
+	roots := c13SendRoots(c)
+	if len(roots) != 1 {
+		c.Bail("%d functions send through a SendFunc (expected one: client.Broadcast)", len(roots))
+	}
+	fn := roots[0]
 	const (
 		kVerify = "Broadcast verifyFunc→sendFunc"
 		kMsg    = "Broadcast sent message = verified (id, message, signatures)"
 		kLocal  = "Broadcast local signature over the verified message at the local index"
 	)
 	isSend := func(e an.Ev) bool {
-		return e.Kind == "call" && (c13Role(e) == c13TSend || e.Name == "field:"+c13Cli+".sendFunc")
+		return e.Kind == "call" && (c13Role(e) == c13TSend || e.Name == "field:"+c13N.cliSend)
 	}
 	t := c13Trace(fn, 2)
 	if !t.usable() {
@@ -2322,18 +2302,41 @@ func c13B6(c *rt.Ctx) {
 					}
 					for _, pr := range [][2]*an.Sym{{x.Args[0], x.Args[1]}, {x.Args[1], x.Args[0]}} {
 						q, _ := p.producer(pr[0])
-						if q < 0 || c13InvokeName(p.Evs[q]) != "ID" || len(p.Evs[q].Args) == 0 || !c13FieldSym(p.Evs[q].Args[0], c13Cli+".p2pNode") {
+						if q < 0 || c13InvokeName(p.Evs[q]) != "ID" || len(p.Evs[q].Args) == 0 || !c13FieldSym(p.Evs[q].Args[0], c13N.cliHost) {
 							continue
 						}
 						sawID = true
 						eb, ei, ok := c13Elem(pr[1])
-						if !ok || !c13FieldSym(eb, c13Cli+".peers") {
+						if !ok || !c13FieldSym(eb, c13N.cliPeers) {
 							continue
 						}
 						sawTest = true
 						if b.Taken && p.same(ei, idx) {
 							onEq = true
 						}
+					}
+				}
+				// or the slot is slices.Index(peers, p2pNode.ID()): the index itself, or an index found equal to it
+				selfIndex := func(x *an.Sym) bool {
+					q, _ := p.producer(x)
+					if q < 0 || !strings.HasPrefix(c13StaticName(p.Evs[q]), "slices.Index") || len(p.Evs[q].Args) != 2 || !c13FieldSym(p.Evs[q].Args[0], c13N.cliPeers) {
+						return false
+					}
+					q2, _ := p.producer(p.Evs[q].Args[1])
+					return q2 >= 0 && c13InvokeName(p.Evs[q2]) == "ID" && len(p.Evs[q2].Args) > 0 && c13FieldSym(p.Evs[q2].Args[0], c13N.cliHost)
+				}
+				if selfIndex(idx) {
+					onEq = true
+				}
+				for j := 0; j < st && !onEq; j++ {
+					b := p.Evs[j]
+					if b.Kind != "branch" || !b.Taken {
+						continue
+					}
+					x := b.Args[0]
+					if x.Kind == an.KBin && x.Op == token.EQL && len(x.Args) == 2 &&
+						((p.same(x.Args[0], idx) && selfIndex(x.Args[1])) || (p.same(x.Args[1], idx) && selfIndex(x.Args[0]))) {
+						onEq = true
 					}
 				}
 				switch {
